@@ -1,11 +1,19 @@
 #!/bin/sh
-# Build the framework from files on disk only (offline).
+# Build the framework from files on disk only (offline).  Every ./check rebuilds what it
+# needs from /repo's working tree anyway; this only warms the Lean and Go build caches.
 set -e
 cd "$(dirname "$0")"
 export GOFLAGS=-mod=mod GOPROXY=off GOSUMDB=off GOTOOLCHAIN=local CGO_ENABLED=0
 mkdir -p .build evidence replays
-(cd harness && cp /repo/go.sum . 2>/dev/null || true; go build -o ../.build/translator ./cmd/translator)
-./.build/translator -repo /repo -out lean/IpcHub/Gen
-(cd lean && lake build driver && lake build IpcHub || true)
-(cd harness && go build -tags verif -o ../.build/harness ./cmd/harness)
+cp /repo/go.sum harness/go.sum 2>/dev/null || true
+for d in harness/tr/*/; do
+  id=$(basename "$d")
+  (cd harness && go build -o ../.build/tr_$id ./tr/$id) && ./.build/tr_$id -repo /repo -out lean/IpcHub/Gen || true
+  (cd harness && go build -tags verif -o ../.build/h_$id ./cmd/$id) || true
+done
+(cd lean && lake build IpcHub || true)
+for d in harness/cmd/*/; do
+  id=$(basename "$d")
+  (cd lean && lake build driver_$id) || true
+done
 echo setup done
